@@ -276,7 +276,7 @@ def run(ctx):
                 for f in names:
                     col, k = fields[f]
                     if k in ("int", "pos"):
-                        vals = [r.choice([0, 7, 10, 999, 12345, r.randint(0, 10 ** 9)]) for _ in state]
+                        vals = [r.choice([0, 7, 10, 999, 12345, r.randint(0, 10 ** 9), r.choice([2 ** 31 - 2, 2 ** 31 - 1, 2 ** 31, 2400000000, 2 ** 32, 10 ** 12])]) for _ in state]     # coordinates beyond 32 bits included
                         kw[f] = np.array(vals, dtype=int)
                         texts = [str(v + 1) if k == "pos" else str(v) for v in vals]
                     else:
@@ -401,6 +401,78 @@ def run(ctx):
     for i in range(ctx.share(ctx.pick(640, 8000))):
         ctx.run_case(bam_program, {"seed": rng.randrange(2 ** 40), "chunked": rng.random() < 0.4})
     ctx.floor("judged:write:bam", ctx.pick(100, 2000))
+
+    def stream_of_selections(case):
+        """the file is read in chunks (plain or gzip), a selection is taken from every chunk (some select nothing) and the STREAM of selections is handed
+        to the writer in one call; or the chunk tables are kept and concatenated later: the output is the text of the selected records, in order"""
+        from bionumpy.streams import NpDataclassStream
+        import gzip as _gz
+        r = random.Random(case["seed"])
+        fname = case["fmt"]
+        fmt = FORMATS[fname]
+        style = {"eol": "\n", "final_newline": True, "noncanon": r.random() < 0.6, "plusname": True, "tags": True, "score_mode": "int"}
+        n = r.randint(6, ctx.pick(16, 40))
+        fc = make_file(fname, r, n, r.choice(["tiny", "normal"]), style)
+        raws = list(fc["raws"])
+        gz = r.random() < 0.5
+        path = ctx.path("sel" + fmt.suffix + (".gz" if gz else ""))
+        with (_gz.open(path, "wb") if gz else open(path, "wb")) as f:
+            f.write(fc["data"])
+        bt = tables.get_buffer_type(fmt.buffer)
+        longest = max(len(x) for x in raws) + 2
+        k = r.randint(longest, longest * 3)
+        keep = [r.random() < 0.6 for _ in range(n)]
+        mode = case["mode"]
+        wit = {"format": fname, "gzip": gz, "k": k, "mode": mode, "keep": keep, "seed": case["seed"], "source": fc["data"].decode("latin1")[:1200]}
+        out = ctx.path("selout" + fmt.suffix)
+        try:
+            chunks = bnp.open(path, buffer_type=bt).read_chunks(min_chunk_size=k)
+            if mode == "stream":
+                # a run of chunks in the middle selects nothing
+                state = {"row": 0}
+                lo = r.randint(1, max(1, n // 2)); hi = r.randint(lo, n)
+                for i in range(lo, hi):
+                    keep[i] = False
+
+                def sel_gen():
+                    for c in chunks:
+                        m = np.array(keep[state["row"]:state["row"] + len(c)], dtype=bool)
+                        state["row"] += len(c)
+                        yield c[m]
+                with bnp.open(out, "w", buffer_type=bt) as f:
+                    f.write(NpDataclassStream(sel_gen(), dataclass=chunks.dataclass if hasattr(chunks, "dataclass") else None))
+            else:
+                held = list(chunks)             # every chunk table is kept while the later chunks are read
+                sizes = [len(c) for c in held]
+                if sum(sizes) != n:
+                    ctx.observe("chunked-read-count-differs(C01's business)")
+                    return
+                joined = np.concatenate(held) if len(held) > 1 else held[0]
+                with bnp.open(out, "w", buffer_type=bt) as f:
+                    f.write(joined[np.array(keep, dtype=bool)])
+                wit["chunks"] = sizes
+            got = open(out, "rb").read().decode("latin1")
+        except Exception as e:
+            if not originates_in_library(e):
+                raise
+            et, site = exc_site(e)
+            ctx.judged("write:" + fname, None)
+            ctx.violation("%s/%s/write-raised:%s@%s" % (fname, "stream-of-selections" if mode == "stream" else "kept-chunks-concatenated", et, site), "writing %s raised %s: %s" % (mode, et, str(e)[:120]), wit)
+            return
+        expected = fc["header"] + "".join(x for x, kp in zip(raws, keep) if kp)
+        ok = got == expected or (not any(keep) and got in ("", fc["header"])) or (mode != "stream" and fname == "fastq" and got.replace("\n+\n", "\n+X\n") == expected.replace("\n+\n", "\n+X\n"))
+        if not ok and mode != "stream":
+            # after a concatenation only the fields of the entry type must keep their text (see `lenient` above): compare without the FASTQ '+name' line
+            import re as _re
+            ok = _re.sub(r"\n\+[^\n]*\n", "\n+\n", got) == _re.sub(r"\n\+[^\n]*\n", "\n+\n", expected)
+        ctx.check("write:" + fname, ok, "%s/%s/bytes-differ-from-selected-source-records" % (fname, "stream-of-selections" if mode == "stream" else "kept-chunks-concatenated"),
+                  "%s written: got %d bytes, the selected records have %d; got ends %r, expected ends %r" % (mode, len(got), len(expected), got[-80:], expected[-80:]), dict(wit, got=got[-600:], expected=expected[-600:]),
+                  (fc["data"], k, tuple(keep), mode))
+        ctx.count("stream_or_kept_chunk_writes")
+
+    SEL_FORMATS = [f for f in SOURCES if f not in ("gtf", "bed12")]
+    for i in range(ctx.share(ctx.pick(320, 4000))):
+        ctx.run_case(stream_of_selections, {"fmt": SEL_FORMATS[i % len(SEL_FORMATS)], "seed": rng.randrange(2 ** 40), "mode": "stream" if i % 2 else "kept"})
 
     fmts = list(SOURCES)
     total = ctx.share(ctx.pick(400 * len(fmts), 6000 * len(fmts)))
